@@ -149,6 +149,9 @@ func fromTimestamp(thread *starlark.Thread, _ *starlark.Builtin, args starlark.T
 }
 
 func now(thread *starlark.Thread, _ *starlark.Builtin, args starlark.Tuple, kwargs []starlark.Tuple) (starlark.Value, error) {
+	if err := starlark.UnpackArgs("now", args, kwargs); err != nil {
+		return nil, err
+	}
 	nowErrFunc := Now(thread)
 	if nowErrFunc != nil {
 		t, err := nowErrFunc()
